@@ -11,6 +11,7 @@ import (
 	"context"
 	"fmt"
 	"io"
+	"runtime"
 	"sync"
 	"sync/atomic"
 	"time"
@@ -31,9 +32,27 @@ var epoch = time.Unix(1_000_000, 0)
 type simClock struct {
 	mu  sync.Mutex
 	off time.Duration
+
+	// The harness owns the clock, so it also owns the moment at which a
+	// request reads it. The NFSv4.0 program reads the clock in exactly
+	// one place: at the top of enter(), right before it acquires the
+	// server lock. A request whose reentry gate is armed (see opCtl) is
+	// parked inside that Now() call, i.e. outside of every lock of the
+	// code under test, until the harness lets it go. Requests are told
+	// apart by the goroutine that executes them.
+	armed atomic.Int32
+	byG   map[uint64]*opCtl
 }
 
 func (c *simClock) Now() time.Time {
+	if c.armed.Load() > 0 {
+		c.mu.Lock()
+		ctl := c.byG[goid()]
+		c.mu.Unlock()
+		if ctl != nil {
+			ctl.reentryGate(c)
+		}
+	}
 	c.mu.Lock()
 	defer c.mu.Unlock()
 	return epoch.Add(c.off)
@@ -43,6 +62,38 @@ func (c *simClock) advance(d time.Duration) {
 	c.mu.Lock()
 	c.off += d
 	c.mu.Unlock()
+}
+
+// bind declares that the calling goroutine executes the request of ctl.
+func (c *simClock) bind(ctl *opCtl) {
+	id := goid()
+	c.mu.Lock()
+	if c.byG == nil {
+		c.byG = map[uint64]*opCtl{}
+	}
+	c.byG[id] = ctl
+	c.mu.Unlock()
+}
+
+func (c *simClock) unbind() {
+	id := goid()
+	c.mu.Lock()
+	delete(c.byG, id)
+	c.mu.Unlock()
+}
+
+// goid returns the ID of the calling goroutine ("goroutine 123 [running]:").
+func goid() uint64 {
+	var buf [64]byte
+	n := runtime.Stack(buf[:], false)
+	var id uint64
+	for _, ch := range buf[len("goroutine "):n] {
+		if ch < '0' || ch > '9' {
+			break
+		}
+		id = id*10 + uint64(ch-'0')
+	}
+	return id
 }
 
 func (c *simClock) NewContextWithTimeout(parent context.Context, timeout time.Duration) (context.Context, context.CancelFunc) {
@@ -217,6 +268,11 @@ const (
 	parkOpenBefore = "open_before" // inside VirtualOpenChild, before the real directory is called
 	parkOpenAfter  = "open_after"  // inside VirtualOpenChild, after the real directory returned
 	parkIO         = "io"          // inside leaf VirtualRead / VirtualWrite / VirtualSetAttributes, before the real call
+	// parkReenter: inside the clock's Now() at the top of enter(), when
+	// a request that had to wait for the transaction of its open-owner
+	// is about to reacquire the server lock (not a plan of the request:
+	// armed by the world each time the request starts waiting).
+	parkReenter = "reenter"
 )
 
 // Fault points: a request may carry one fault that the instrumented
@@ -254,10 +310,78 @@ type opCtl struct {
 	reached  []string // instrumented call sites this op went through (diagnostic)
 	fired    []string // fault points that fired
 	release  chan struct{}
+
+	// Reentry gate: when armed, the next clock reading of the request's
+	// goroutine parks (one shot).
+	gateArmed   bool
+	gateRelease chan struct{}
+	gateOff     bool // end of the case: never park again
 }
 
 func newOpCtl(plan string) *opCtl {
 	return &opCtl{plan: plan, release: make(chan struct{})}
+}
+
+// armGate makes the request park at its next clock reading. Only called
+// while the request's goroutine is durably blocked.
+func (c *opCtl) armGate(clk *simClock) {
+	c.mu.Lock()
+	defer c.mu.Unlock()
+	if c.gateArmed || c.gateOff {
+		return
+	}
+	c.gateArmed = true
+	clk.armed.Add(1)
+}
+
+func (c *opCtl) reentryGate(clk *simClock) {
+	c.mu.Lock()
+	if !c.gateArmed {
+		c.mu.Unlock()
+		return
+	}
+	c.gateArmed = false
+	clk.armed.Add(-1)
+	ch := make(chan struct{})
+	c.gateRelease = ch
+	c.parkedAt = parkReenter
+	c.reached = append(c.reached, parkReenter)
+	c.mu.Unlock()
+	<-ch
+	c.mu.Lock()
+	c.parkedAt = ""
+	c.mu.Unlock()
+}
+
+// unpark lets a parked request continue, wherever it is parked.
+func (c *opCtl) unpark() {
+	c.mu.Lock()
+	defer c.mu.Unlock()
+	switch c.parkedAt {
+	case "":
+	case parkReenter:
+		if c.gateRelease != nil {
+			close(c.gateRelease)
+			c.gateRelease = nil
+		}
+	default:
+		select {
+		case <-c.release:
+		default:
+			close(c.release)
+		}
+	}
+}
+
+// openGate disarms the reentry gate for good (end of the case).
+func (c *opCtl) openGate(clk *simClock) {
+	c.mu.Lock()
+	defer c.mu.Unlock()
+	c.gateOff = true
+	if c.gateArmed {
+		c.gateArmed = false
+		clk.armed.Add(-1)
+	}
 }
 
 // takeFault reports whether the request of ctx carries a not yet fired
